@@ -518,15 +518,23 @@ def tree_from_events(events):
     return nodes, last
 
 def infix_shape(nodes, root):
-    """fully parenthesised rendering by term columns (for one-nonterminal expression grammars)"""
-    def go(i):
+    """fully parenthesised rendering by term columns (for one-nonterminal expression grammars); iterative, inputs can be deep"""
+    out = {}
+    stack = [(root, False)]
+    while stack:
+        i, done = stack.pop()
         kind, rule, kids = nodes[i]
-        parts = []
-        for k in kids:
-            if k[0] == 'id': parts.append(go(k[1]))
-            else: parts.append(k[1].split(':')[1] if ':' in k[1] else k[1])
-        return '(' + ' '.join(parts) + ')'
-    return go(root)
+        if not done:
+            stack.append((i, True))
+            for k in kids:
+                if k[0] == 'id' and k[1] not in out: stack.append((k[1], False))
+        else:
+            parts = []
+            for k in kids:
+                if k[0] == 'id': parts.append(out[k[1]])
+                else: parts.append(k[1].split(':')[1] if ':' in k[1] else k[1])
+            out[i] = '(' + ' '.join(parts) + ')'
+    return out[root]
 
 def shunting_shape(g, toks, cols):
     """operator-precedence grouping, independent of LR tables, for grammars E->E op E | atom | ( E ) without explicit rule precedence.
